@@ -89,6 +89,7 @@ class Ctx:
         s.atom = {}     # D sym -> Poly
         s.atomkey = {}
         s.acos = {}     # sym -> RF arg
+        s.rel = {}      # var -> Poly with var^2 == poly, no sign information (e.g. rc^2 == 1 - rs^2 for a rotation)
         s.n = 0
     def fresh(s, p): s.n += 1; return '%s%d' % (p, s.n)
     def full(s, p):
@@ -96,6 +97,7 @@ class Ctx:
         while True:
             q = p.subs_var(s.atom) if (p.vars() & s.atom.keys()) else p
             q = q.subs_even(s.rad)
+            if s.rel: q = q.subs_even(s.rel)
             if q.t == p.t: return q
             p = q
 
